@@ -623,7 +623,7 @@ Section EventSim.
     m_step names st (OpEvent items) = Some (st', ob) ->
     step_ok opts defaults st m (OpEvent items) st' ob.
   Proof.
-    intros R Hok H. cbn [op_ok] in Hok. apply andb_true_iff in Hok as [_ Hitems].
+    intros R Hok H. cbn [op_ok op_ok_gen] in Hok. apply andb_true_iff in Hok as [_ Hitems].
     assert (forall it, In it items -> exists k, In (fst it, k) opts) as Hkeys
       by (intros it Hi; destruct (item_facts _ _ Hitems Hi) as [k [Hk _]]; eauto).
     assert (forall it v, In it items -> snd it = Some v -> tor_value_ok v = true) as Hvals.
@@ -688,7 +688,7 @@ Section EventSim.
           rewrite Hfi, beqb_refl, Es. auto.
         + assert (kwonly k items = true) as X; [|congruence]. apply existsb_exists. exists it.
           rewrite Hfi, beqb_refl, Es. auto. }
-    cbn [m_step] in H. unfold m_conf_changed in H. fold d in H. rewrite Ecc in H.
+    cbn [m_step m_step_gen] in H. unfold m_conf_changed in H. fold d in H. rewrite Ecc in H.
     set (m' := mon_step opts defaults m (OpEvent items)).
     (* the new relation *)
     assert (Rel opts defaults s1 m') as R'.
@@ -696,7 +696,7 @@ Section EventSim.
       { intros it Hi. destruct (Hkeys it Hi) as [k Hk]. eapply canon_self; eassumption. }
       assert (forall cn, mem_bytes cn (m_det m') =
                          (existsb (fun it : bytes * option bytes => beqb (fst it) cn) items && dmem cn (s_pend (m_st m))) || mem_bytes cn (m_det m)) as Hdet.
-      { intros cn. unfold m'. cbn [mon_step m_det]. now apply det_mem. }
+      { intros cn. unfold m'. cbn [mon_step mon_step_gen m_det]. now apply det_mem. }
       assert (forall cn, existsb (fun it : bytes * option bytes => beqb (fst it) cn) items = true <-> In cn (map fst items)) as Hex.
       { intros cn. rewrite existsb_exists. split.
         - intros [it [Hi Hb]]. apply beqb_eq in Hb. subst cn. now apply in_map.
@@ -704,7 +704,7 @@ Section EventSim.
       assert (forall cn k, In (cn, k) opts -> store_get (s_store (m_st m')) cn =
                 if existsb (fun it : bytes * option bytes => beqb (fst it) cn) items then vals_of cn items
                 else store_get (s_store (m_st m)) cn) as Hstore.
-      { intros cn k Hin. unfold m'. cbn [mon_step m_st]. unfold spec_next, event_entries. cbn [s_store].
+      { intros cn k Hin. unfold m'. cbn [mon_step mon_step_gen m_st]. unfold spec_next, spec_next_gen, event_entries. cbn [s_store].
         rewrite (apply_entries_get opts Hnd items (s_store (m_st m)) cn) by (intros e He; apply Hkeys; exact He).
         change (existsb (fun it : bytes * option bytes => beqb (fst it) cn) items)
           with (existsb (fun e : entry => beqb (fst e) cn) items).
@@ -717,7 +717,7 @@ Section EventSim.
       - intros cn k Hin. apply HM. eapply R3; eassumption.
       - intros cn k Hin. rewrite HD. now apply R4 with (k := k).
       - (* sync *)
-        intros cn k Hin Hp. unfold m' in Hp. cbn [mon_step m_st] in Hp. unfold spec_next in Hp. cbn [s_pend] in Hp.
+        intros cn k Hin Hp. unfold m' in Hp. cbn [mon_step mon_step_gen m_st] in Hp. unfold spec_next, spec_next_gen in Hp. cbn [s_pend] in Hp.
         destruct (R5 _ _ Hin Hp) as [Hu Hs].
         destruct (in_dec (list_eq_dec ascii_dec) cn (map fst items)) as [Hi|Hi].
         + split.
@@ -740,7 +740,7 @@ Section EventSim.
             exfalso. apply Hi. now apply Hex. }
           eapply synced_frame; [exact B1|now rewrite HD|exact Hs].
       - (* pend *)
-        intros cn iv Hp. unfold m' in Hp. cbn [mon_step m_st] in Hp. unfold spec_next in Hp. cbn [s_pend] in Hp.
+        intros cn iv Hp. unfold m' in Hp. cbn [mon_step mon_step_gen m_st] in Hp. unfold spec_next, spec_next_gen in Hp. cbn [s_pend] in Hp.
         destruct (R6 _ _ Hp) as [k [Hin Hpr]]. exists k. split; [assumption|].
         assert (dmem cn (s_pend (m_st m)) = true) as Hdm by (unfold dmem; now rewrite Hp).
         destruct (in_dec (list_eq_dec ascii_dec) cn (map fst items)) as [Hi|Hi].
@@ -761,12 +761,12 @@ Section EventSim.
             exfalso. apply Hi. now apply Hex.
       - rewrite HK. exact R7.
       - rewrite HK. exact R9.
-      - unfold m'. cbn [mon_step m_f1 m_f3]. exact R8.
+      - unfold m'. cbn [mon_step mon_step_gen m_f1 m_f3]. exact R8.
       - intros cn k Hin. rewrite (conf_changed_items_listp _ _ _ Ecc). now apply R10. }
     destruct (snapshot_sim opts defaults Hnd s1 m' opts R' (fun c k0 Hc => Hc)) as [snap [Hs Hok']].
     rewrite <- names_eq in Hs. rewrite Hs in H. inversion H. subst st' ob. clear H.
     split; [|exact R'].
-    cbn [spec_check o_wrote o_res is_nil andb].
+    cbn [spec_check spec_check_gen o_wrote o_res is_nil andb].
     assert (match m_unsaved s1 with [] => false | _ :: _ => true end = negb (is_nil (s_pend (m_st m)))) as ->.
     { pose proof (r_ukeys _ _ _ _ R) as Hk0. rewrite <- HK in Hk0.
       destruct (m_unsaved s1), (s_pend (m_st m)); cbn in Hk0; try discriminate; reflexivity. }
